@@ -3,6 +3,7 @@
 //!   ckc-probe dump                    data of the implementation -> tools/gen_coq.py -> coq/Gen/*.v
 //!   ckc-probe run   < cases           one operation per input line, one result line per case
 //!   ckc-probe cases <family> [args]   big enumerated case files (same format as tools/inputs.py)
+//!   ckc-probe sweep --op .. --k ..    exhaustive implementation-only run of a projection against a proved constant
 //!   ckc-probe oracle <property> ...   direct search for an input violating a property (replay finder)
 
 mod cases;
@@ -12,6 +13,7 @@ mod oracle_a;
 mod oracle_b;
 mod refeval;
 mod run;
+mod sweep;
 
 fn main() {
     let args: Vec<String> = std::env::args().collect();
@@ -21,6 +23,7 @@ fn main() {
         Some("run") => run::run(&args[2..]),
         Some("cases") => cases::cases(&args[2..]),
         Some("oracle") => oracle::oracle(&args[2..]),
+        Some("sweep") => sweep::sweep(&args[2..]),
         _ => {
             eprintln!("usage: ckc-probe dump | run | cases <family> | oracle <property>");
             std::process::exit(2);
